@@ -7,7 +7,7 @@ from vlib.par import pmap
 from bounded.common import Suite
 from spec import utf8
 
-LEVEL = "proof"
+LEVEL = "exploration"
 ASSUMPTIONS = [
     "bytes.decode(enc) raises UnicodeDecodeError exactly on ill-formed input: spec/utf8.py (validated against CPython on 411 392 "
     "byte strings on every run); the decoded text is an uninterpreted function of the bytes",
